@@ -63,6 +63,11 @@ type RemoteClient struct {
 	isReconnecting    atomic.Value
 	dialTimeout       atomic.Value
 
+	// connectionLock keeps Ready from straddling a switch to a new connection. Without it Ready
+	// could see the previous connection accepted, then write its message to the new connection and
+	// mark the handshake of the new connection complete before the service accepted it.
+	connectionLock sync.Mutex
+
 	clientID bitcoin.Hash20
 
 	// Session
@@ -280,6 +285,9 @@ func (c *RemoteClient) Ready(ctx context.Context, nextMessageID uint64) error {
 	if nextMessageID == 0 {
 		nextMessageID = 1 // first message id is 1
 	}
+
+	c.connectionLock.Lock()
+	defer c.connectionLock.Unlock()
 
 	if !c.accepted.Load().(bool) {
 		// The service has not accepted the current connection. This can be a call made for the
@@ -1452,8 +1460,6 @@ func (c *RemoteClient) maintainConnection(ctx context.Context,
 			continue
 		}
 
-		c.conn.Store(conn)
-
 		messageToSend, err = c.runConnection(ctx, conn, sendChannel, receiveChannel, messageToSend,
 			interrupt)
 		if err != nil {
@@ -1471,12 +1477,15 @@ func (c *RemoteClient) runConnection(ctx context.Context, conn net.Conn,
 
 	var wait sync.WaitGroup
 
+	c.connectionLock.Lock()
+	c.conn.Store(conn)
 	c.isReconnecting.Store(false)
 	c.isConnected.Store(true)
 	c.accepted.Store(false)
 	c.handshakeComplete.Store(false)
 	handshakeCompleteChannel := make(chan interface{}, 5)
 	c.handshakeCompleteChannel.Store(handshakeCompleteChannel)
+	c.connectionLock.Unlock()
 
 	sendsThread, sendsComplete := threads.NewInterruptableThreadComplete("SpyNode Sends",
 		func(ctx context.Context, interrupt <-chan interface{}) error {
